@@ -345,6 +345,10 @@ func c19Tables(outDir string) {
 		row(false, opNames(g.VerifGenericOperators()), g.GetParser().VerifUnaryOpPos())
 	}
 	b.WriteString("].\n")
+	// the static functions of the table variants (harness c19AddFunctions on a copy of the float example): name,
+	// Args (-1 = variadic), IsPure as registered through AddGoFunction / AddStaticFunction / AddSimpleFunction
+	vg := c19VariantGen(c19Variants[0], false)
+	c19WriteCommon(&b, "ex_var", vg.VerifStaticArities(), func(name string) bool { f, _ := vg.VerifStatic(name); return f.IsPure })
 	writeIfChanged(filepath.Join(outDir, "ExampleCfg.v"), b.String())
 }
 
@@ -556,6 +560,7 @@ type c19Alpha struct {
 	Leaves []*c19E
 	Unary  []func(*c19E) *c19E
 	Bin    []string
+	Bin2   []func(a, b *c19E) *c19E // further two-operand forms (calls with two arguments), after Bin
 	counts []uint64
 }
 
@@ -568,7 +573,7 @@ func (a *c19Alpha) count(n int) uint64 {
 		}
 		c := uint64(len(a.Unary)) * a.counts[k-1]
 		for l := 0; l < k; l++ {
-			c += uint64(len(a.Bin)) * a.counts[l] * a.counts[k-1-l]
+			c += uint64(len(a.Bin)+len(a.Bin2)) * a.counts[l] * a.counts[k-1-l]
 		}
 		a.counts = append(a.counts, c)
 	}
@@ -587,11 +592,15 @@ func (a *c19Alpha) unrank(n int, i uint64) *c19E {
 	i -= uint64(len(a.Unary)) * cu
 	for l := 0; l < n; l++ {
 		cl, cr := a.count(l), a.count(n-1-l)
-		blk := uint64(len(a.Bin)) * cl * cr
+		blk := uint64(len(a.Bin)+len(a.Bin2)) * cl * cr
 		if i < blk {
-			op := a.Bin[i/(cl*cr)]
+			k := int(i / (cl * cr))
 			rest := i % (cl * cr)
-			return c19Bin(op, a.unrank(l, rest/cr), a.unrank(n-1-l, rest%cr))
+			x, y := a.unrank(l, rest/cr), a.unrank(n-1-l, rest%cr)
+			if k < len(a.Bin) {
+				return c19Bin(a.Bin[k], x, y)
+			}
+			return a.Bin2[k-len(a.Bin)](x, y)
 		}
 		i -= blk
 	}
@@ -807,6 +816,7 @@ type c19Float struct {
 	// operators (Var = "" and VarUnary = nil: the table of example/minimal.go itself)
 	Var      string
 	VarUnary []string
+	Strict   bool // ToBool accepts only 0 and 1
 }
 
 func (f *c19Float) instName() string {
@@ -821,7 +831,7 @@ func (f *c19Float) coqVar() string {
 	for _, u := range f.VarUnary {
 		s = append(s, CoqStr(u))
 	}
-	return CoqList(s)
+	return CoqList(s) + " " + CoqBool(f.Strict)
 }
 
 // prefix operators the harness adds to copies of the float example (mirrored in coq/Gen/Instances.v float_unimpl):
@@ -837,25 +847,76 @@ var c19PrefixImpl = map[string]func(float64) (float64, error){
 }
 
 type c19VariantSpec struct {
-	Name  string
-	Unary []string // registration order
+	Name   string
+	Unary  []string // registration order
+	Strict bool     // ToBool accepts only 0 and 1 (ok=false for every other value)
 }
 
 // 0, 1, 2, 3 prefix operators that are also binary (at the first, a middle and the last priority position),
 // with and without prefix-only operators
 var c19Variants = []c19VariantSpec{
-	{"no-twin", []string{"!"}},
-	{"one-twin", []string{"-", "!"}},
-	{"two-twins", []string{"-", "+"}},
-	{"twins-first-middle-last", []string{"^", "-", "=", "~"}},
-	{"twins-middle-last", []string{"+", "^"}},
-	{"three-twins-middle", []string{"*", "-", "+"}},
+	{"no-twin", []string{"!"}, false},
+	{"one-twin", []string{"-", "!"}, false},
+	{"two-twins", []string{"-", "+"}, false},
+	{"twins-first-middle-last", []string{"^", "-", "=", "~"}, false},
+	{"twins-middle-last", []string{"+", "^"}, false},
+	{"three-twins-middle", []string{"*", "-", "+"}, false},
+	{"strict-tobool", []string{"-"}, true},
+	{"strict-tobool-two-twins", []string{"-", "+"}, true},
+}
+
+// Every registration API for static functions, with implementations that look at ALL the arguments they are
+// given (mirrored in coq/Gen/Instances.v float_fnimpl; arities and purity are regenerated: ex_var_funcs):
+//   sum   AddGoFunction, variadic      sum of all arguments
+//   max   AddGoFunction, variadic      greatest argument, an error without arguments
+//   sum3  AddGoFunction, 3 arguments   sum of all arguments it receives
+//   cnt   AddStaticFunction, variadic  the number of arguments (Stack.Size)
+//   avg2  AddStaticFunction, 2         (st.Get(0) + st.Get(1)) / 2
+//   half  AddSimpleFunction            x / 2
+func c19AddFunctions(g *funcGen.FunctionGenerator[float64]) *funcGen.FunctionGenerator[float64] {
+	sum := func(a ...float64) (float64, error) {
+		s := 0.0
+		for _, x := range a {
+			s += x
+		}
+		return s, nil
+	}
+	return g.
+		AddGoFunction("sum", -1, sum).
+		AddGoFunction("max", -1, func(a ...float64) (float64, error) {
+			if len(a) == 0 {
+				return 0, fmt.Errorf("max needs an argument")
+			}
+			m := a[0]
+			for _, x := range a[1:] {
+				if x > m {
+					m = x
+				}
+			}
+			return m, nil
+		}).
+		AddGoFunction("sum3", 3, sum).
+		AddStaticFunction("cnt", funcGen.Function[float64]{
+			Func:   func(st funcGen.Stack[float64], cs []float64) (float64, error) { return float64(st.Size()), nil },
+			Args:   -1,
+			IsPure: true,
+		}).
+		AddStaticFunction("avg2", funcGen.Function[float64]{
+			Func:   func(st funcGen.Stack[float64], cs []float64) (float64, error) { return (st.Get(0) + st.Get(1)) / 2, nil },
+			Args:   2,
+			IsPure: true,
+		}).
+		AddSimpleFunction("half", func(x float64) float64 { return x / 2 })
 }
 
 func c19VariantGen(spec c19VariantSpec, optimizer bool) *funcGen.FunctionGenerator[float64] {
 	g := example.VerifMinimal().VerifClone().VerifClearUnary().SetKeyWords(c19Keywords...)
 	for _, u := range spec.Unary {
 		g.AddUnaryFunc(u, c19PrefixImpl[u])
+	}
+	c19AddFunctions(g)
+	if spec.Strict {
+		g.SetToBool(func(c float64) (bool, bool) { return c == 1, c == 0 || c == 1 })
 	}
 	if !optimizer {
 		g.SetOptimizer(nil)
@@ -864,7 +925,7 @@ func c19VariantGen(spec c19VariantSpec, optimizer bool) *funcGen.FunctionGenerat
 }
 
 func c19NewVariant(base *c19Float, spec c19VariantSpec) *c19Float {
-	f := &c19Float{consts: base.consts, Var: spec.Name, VarUnary: spec.Unary}
+	f := &c19Float{consts: base.consts, Var: spec.Name, VarUnary: spec.Unary, Strict: spec.Strict}
 	f.inst = c19Inst{Name: "float/" + spec.Name, Args: base.inst.Args, Ops: base.inst.Ops, Unary: spec.Unary}
 	f.flags = base.flags[:1]
 	f.gens.on = []*funcGen.FunctionGenerator[float64]{c19VariantGen(spec, true)}
@@ -874,6 +935,17 @@ func c19NewVariant(base *c19Float, spec c19VariantSpec) *c19Float {
 	for _, u := range spec.Unary {
 		u := u
 		f.alpha.Unary = append(f.alpha.Unary, func(e *c19E) *c19E { return c19Un(u, e) })
+	}
+	// calls at every operand position: one-argument and two-argument forms of every registration API
+	f.alpha.Unary = append(f.alpha.Unary,
+		func(e *c19E) *c19E { return c19Call("sum", e) },
+		func(e *c19E) *c19E { return c19Call("half", e) })
+	f.alpha.Bin2 = []func(a, b *c19E) *c19E{
+		func(a, b *c19E) *c19E { return c19Call("sum", a, b) },
+		func(a, b *c19E) *c19E { return c19Call("max", a, b) },
+		func(a, b *c19E) *c19E { return c19Call("sum3", a, b, c19Num("2")) },
+		func(a, b *c19E) *c19E { return c19Call("cnt", a, b) },
+		func(a, b *c19E) *c19E { return c19Call("avg2", a, b) },
 	}
 	return f
 }
@@ -1094,6 +1166,61 @@ func (f *c19Float) eval(e *c19E, env map[string]c19Q) (c19Q, int) {
 			}
 			return q, 0
 		}
+		if ar, ok := map[string]int{"sum": -1, "max": -1, "sum3": 3, "cnt": -1, "avg2": 2, "half": 1}[e.S]; ok && f.Var != "" {
+			if ar >= 0 && ar != len(e.Kids) {
+				return bad, 1 // Generate refuses the arity
+			}
+			var xs []c19Q
+			for _, k := range e.Kids {
+				x, st := f.eval(k, env)
+				if st != 0 {
+					return bad, st
+				}
+				xs = append(xs, x)
+			}
+			add := func(x, y c19Q) c19Q {
+				return c19Q{r: new(big.Rat).Add(x.r, y.r), nz: x.r.Sign() == 0 && y.r.Sign() == 0 && x.nz && y.nz}
+			}
+			half := func(x c19Q) c19Q {
+				r := new(big.Rat).Quo(x.r, big.NewRat(2, 1))
+				return c19Q{r: r, nz: r.Sign() == 0 && x.neg()}
+			}
+			var q c19Q
+			switch e.S {
+			case "sum", "sum3":
+				q = c19Q{r: new(big.Rat)}
+				for _, x := range xs {
+					q = add(q, x)
+					if !c19Exact(q.r) {
+						return bad, 2
+					}
+				}
+			case "max":
+				if len(xs) == 0 {
+					return bad, 1
+				}
+				q = xs[0]
+				for _, x := range xs[1:] {
+					if x.r.Cmp(q.r) > 0 {
+						q = x
+					}
+				}
+			case "cnt":
+				q = c19Q{r: big.NewRat(int64(len(xs)), 1)}
+			case "avg2":
+				q = add(xs[0], xs[1])
+				if !c19Exact(q.r) {
+					return bad, 2
+				}
+				q = half(q)
+			case "half":
+				q = half(xs[0])
+			}
+			if !c19Exact(q.r) {
+				return bad, 2
+			}
+			return q, 0
+		}
 		return bad, 2
 	case "let":
 		x, st := f.eval(e.Kids[0], env)
@@ -1113,6 +1240,9 @@ func (f *c19Float) eval(e *c19E, env map[string]c19Q) (c19Q, int) {
 		c, st := f.eval(e.Kids[0], env)
 		if st != 0 {
 			return bad, st
+		}
+		if f.Strict && c.r.Sign() != 0 && c.r.Cmp(big.NewRat(1, 1)) != 0 {
+			return bad, 1 // not a boolean: an error
 		}
 		if c.r.Sign() != 0 {
 			return f.eval(e.Kids[1], env)
@@ -1287,7 +1417,11 @@ func c19Sig(inst string, e *c19E, kind string) string {
 }
 
 func (cx *c19Ctx) violation(inst string, e *c19E, text, kind, what, expected, observed string, repro c19Repro) {
-	sig := c19Sig(inst, e, kind)
+	sigInst := inst
+	if strings.HasPrefix(inst, "float/") {
+		sigInst = "float table variant" // one finding per rewrite / operator pair, not per variant
+	}
+	sig := c19Sig(sigInst, e, kind)
 	cx.mu.Lock()
 	defer cx.mu.Unlock()
 	cx.nviol[sig]++
@@ -1812,6 +1946,17 @@ func cmdC19(seed int64, tier, outDir string) {
 		for _, c := range c19VariantCorpus(v) {
 			cx.floatExplicit(v, c.e, c.text(&v.inst), 0, "prefix corpus "+v.Var)
 		}
+		if v.Strict {
+			// if E then b else a for every condition E with <= 1 operator node over {a, b, 0, 1, 2, 0.5}
+			conds := c19Alpha{Leaves: []*c19E{c19Name("a"), c19Name("b"), c19Num("0"), c19Num("1"), c19Num("2"), c19Num("0.5")},
+				Unary: v.alpha.Unary[:1], Bin: []string{"=", "<", "+", "-", "*"}}
+			for n := 0; n <= 1; n++ {
+				for i := uint64(0); i < conds.count(n); i++ {
+					e := c19If(conds.unrank(n, i), c19Name("b"), c19Name("a"))
+					cx.floatExplicit(v, e, v.inst.render(e, i%2 == 1).text, 0, "strict if-form")
+				}
+			}
+		}
 		varN, varGoN := 1, 3
 		if tier == "thorough" {
 			varN = 2
@@ -1819,12 +1964,12 @@ func cmdC19(seed int64, tier, outDir string) {
 		for n := 0; n <= varGoN; n++ {
 			every, goEvery := 1, 1
 			if n > varN {
-				every = 11
+				every = 41
 			}
 			if n >= 3 {
-				every, goEvery = 350, 5
+				every, goEvery = 2100, 50
 				if tier == "thorough" {
-					every, goEvery = 11, 1
+					every, goEvery = 101, 1
 				}
 			}
 			cx.floatEnum(v, n, every, goEvery, false)
@@ -2031,6 +2176,42 @@ func c19VariantCorpus(v *c19Float) []c19CorpusEntry {
 			c19CorpusEntry{e: c19Un("-", c19Un("-", a)), src: "- -a"},
 			c19CorpusEntry{e: c19Bin("-", b, c19Un("-", c19Bin("^", a, two))), src: "b - -a^2"},
 			c19CorpusEntry{e: c19Let("s", c19Un("-", c19Bin("^", a, two)), c19Bin("-", c19Name("s"), c19Un("-", c19Bin("^", c19Name("s"), two)))), src: "let s = -a^2; s - -s^2"})
+	}
+	// static functions registered through every API, looking at all their arguments: nested and sequenced calls
+	// leave dead slots on the stack behind the frame of a later call
+	sum := func(xs ...*c19E) *c19E { return c19Call("sum", xs...) }
+	one, three := c19Num("1"), c19Num("3")
+	cs = append(cs,
+		c19CorpusEntry{e: sum(a, sum(b, two)), src: "sum(a,sum(b,2))"},
+		c19CorpusEntry{e: c19Bin("-", sum(a, b), sum(two)), src: "sum(a,b)-sum(2)"},
+		c19CorpusEntry{e: c19Bin("-", sum(one, two, three), sum(a)), src: "sum(1,2,3)-sum(a)"},
+		c19CorpusEntry{e: c19Bin("+", c19Call("half", sum(a, b, two)), sum(two)), src: "half(sum(a,b,2))+sum(2)"},
+		c19CorpusEntry{e: c19Call("max", a, c19Bin("-", c19Num("0"), c19Call("max", b, two)))},
+		c19CorpusEntry{e: c19Bin("+", c19Call("cnt", a, b, two, a), c19Call("cnt")), src: "cnt(a,b,2,a)+cnt()"},
+		c19CorpusEntry{e: c19Bin("+", c19Call("cnt", sum(a, b, two)), c19Call("cnt", a)), src: "cnt(sum(a,b,2))+cnt(a)"},
+		c19CorpusEntry{e: c19Bin("+", c19Call("sum3", a, b, two), c19Call("sum3", one, two, three))},
+		c19CorpusEntry{e: c19Bin("*", c19Call("avg2", a, b), c19Call("sum3", a, c19Call("avg2", b, two), two))},
+		c19CorpusEntry{e: sum(), src: "sum()"},
+		c19CorpusEntry{e: c19Call("max"), src: "max()"},
+		c19CorpusEntry{e: c19Call("sum3", a, b), src: "sum3(a,b)"},
+		c19CorpusEntry{e: c19Let("y", sum(a, b), c19Bin("+", sum(c19Name("y")), c19Call("cnt", c19Name("y"), c19Name("y"), c19Name("y")))), src: "let y = sum(a,b); sum(y)+cnt(y,y,y)"},
+		c19CorpusEntry{e: sum(a, c19Let("y", b, c19Bin("*", c19Name("y"), two)), c19Call("max", b, a)), src: "sum(a, let y = b; y*2, max(b,a))"},
+		c19CorpusEntry{e: c19If(sum(a), c19Call("cnt", a, b), sum(b, two, two))})
+	// conditions that are booleans, and conditions that are not (an error under a strict ToBool), constant and not
+	k := c19Name("k")
+	cs = append(cs,
+		c19CorpusEntry{e: c19If(two, b, a), src: "if 2 then b else a"},
+		c19CorpusEntry{e: c19If(c19Bin("+", one, one), b, a), src: "if 1+1 then b else a"},
+		c19CorpusEntry{e: c19If(c19Num("0.5"), b, a)},
+		c19CorpusEntry{e: c19If(one, b, a)}, c19CorpusEntry{e: c19If(c19Num("0"), b, a)},
+		c19CorpusEntry{e: c19If(c19Bin("-", two, one), b, a)},
+		c19CorpusEntry{e: c19If(a, b, two)}, c19CorpusEntry{e: c19If(c19Bin("=", a, b), b, two)},
+		c19CorpusEntry{e: c19Let("k", three, c19If(k, b, c19Bin("*", a, k))), src: "let k=3; if k then b else a*k"},
+		c19CorpusEntry{e: c19Let("k", one, c19If(k, b, c19Bin("*", a, k)))},
+		c19CorpusEntry{e: c19Bin("+", a, c19If(c19Bin("=", a, c19Num("0")), b, c19If(c19Num("0.5"), one, b))), src: "a + if a=0 then b else if 0.5 then 1 else b"},
+		c19CorpusEntry{e: c19If(c19Call("cnt", a, b), b, a)}, c19CorpusEntry{e: c19If(c19Call("cnt", a), b, a)})
+	if has["-"] {
+		cs = append(cs, c19CorpusEntry{e: c19If(c19Un("-", one), b, a), src: "if -1 then b else a"})
 	}
 	if has["-"] && has["+"] {
 		cs = append(cs,
